@@ -243,8 +243,65 @@ def step (t : Nat) (c : Cfg) : Option Cfg :=
              sh := { c.sh with maxBucket := (c.sh.post.map (fun e => assign e.1)).foldl max 0 } }
     | _, _ => none
 
+-- ------------------------------------------------------------------------------------------------
+-- what a parked thread still owes the shared maps (used in the statements of the invariants)
+-- ------------------------------------------------------------------------------------------------
+
+/-- the key of the element operation a thread is inside of -/
+def curKey (th : Thread) : Option Int :=
+  match th.prog with
+  | .insert _ k _ :: _ => some k
+  | .remove _ k :: _ => some k
+  | _ => none
+
+/-- between `insert`'s posting creation and its btree section: will add the btree key -/
+def willKey (th : Thread) (k : Int) : Prop := curKey th = some k ∧ ∃ s b, th.pc = .ins1 true s b
+/-- between `remove`'s successful `remove_if` and its btree section: will drop the btree key if the
+posting is still absent -/
+def willUnkey (th : Thread) (k : Int) : Prop := curKey th = some k ∧ ∃ b, th.pc = .rem2 true b
+/-- between `remove`'s `get_mut` that emptied the posting and its `remove_if` -/
+def willErase (th : Thread) (k : Int) : Prop := curKey th = some k ∧ ∃ b, th.pc = .rem1 true true b
+/-- between `insert`'s posting section and the bucket section that lists the key in bucket `b` -/
+def willList (th : Thread) (k : Int) (b : Nat) : Prop :=
+  curKey th = some k ∧ ((∃ n, th.pc = .ins1 n true b) ∨ th.pc = .ins2 true b ∨ ∃ s, th.pc = .ins3 s (some b))
+
+/-- some thread satisfies `W` -/
+def Any (c : Cfg) (W : Thread → Prop) : Prop := ∃ (i : Nat) (th : Thread), c.threads[i]? = some th ∧ W th
+
 /-- the pair set the shared maps denote -/
 def Pairs (sh : Shared) (k : Int) (d : Nat) : Prop := ∃ p, pget sh.post k = some p ∧ d ∈ p.ids
+
+-- ------------------------------------------------------------------------------------------------
+-- the sequential reading of a history (used by `conc_result_is_sequential`)
+-- ------------------------------------------------------------------------------------------------
+
+/-- apply an element operation's recorded effect to a pair set -/
+def applyEv (r : List (Int × Nat)) (e : Ev) : List (Int × Nat) :=
+  if e.effect then (if e.isInsert then (e.k, e.d) :: r else r.filter (fun x => !(x == (e.k, e.d)))) else r
+
+/-- the pair set after a history (newest event first) -/
+def applyHist (r0 : List (Int × Nat)) : List Ev → List (Int × Nat)
+  | [] => r0
+  | e :: older => applyEv (applyHist r0 older) e
+
+/-- what the *sequential* element operation does on pair set `r` (non-unique index): an insert adds
+the pair iff it is absent, a remove drops it iff it is present -/
+def specEffect (r : List (Int × Nat)) (e : Ev) : Bool :=
+  if e.isInsert then !(r.contains (e.k, e.d)) else r.contains (e.k, e.d)
+
+/-- every recorded effect is the sequential one, at its place in the history -/
+def EffectsSeq (r0 : List (Int × Nat)) : List Ev → Prop
+  | [] => True
+  | e :: older => EffectsSeq r0 older ∧ e.effect = specEffect (applyHist r0 older) e
+
+/-- a clean starting state: what a quiescent index looks like -/
+structure Clean (sh : Shared) : Prop where
+  keyed : ∀ k p, pget sh.post k = some p → k ∈ sh.btree
+  posted : ∀ k, k ∈ sh.btree → ∃ p, pget sh.post k = some p
+  nonempty : ∀ k p, pget sh.post k = some p → p.ids ≠ []
+  listed : ∀ k p, pget sh.post k = some p → (p.bucket, k) ∈ sh.listed
+  nodup : ∀ k p, pget sh.post k = some p → p.ids.Nodup
+  uniq : sh.unique = true → ∀ k p, pget sh.post k = some p → p.ids.length ≤ 1
 
 /-- every thread parked between operations (or finished) -/
 def Quiescent (c : Cfg) : Prop := allIdle c = true
